@@ -138,6 +138,20 @@ def work(chunk):
                     null_v = "NULL" if place == "format-argument" else None
                     if rc != 0 or not isinstance(art, dict) or "v" not in art or art["v"] != null_v:
                         bad = ("read-from:%s:unset-nostrict:not-null" % place, {"rc": rc, "artifact": art, "stderr": err[-300:]})
+            elif kind == "read-unset-small":
+                # no nonce variable is added here: the environment is exactly what the case says plus one two-letter secret
+                name, quoted, strict = prm
+                envv = dict(envvars)
+                envv["S"] = "n0nce9"
+                rc, err, art = build(d, "out json {v = %s};\n" % sel(name, quoted), envv, strict)
+                if rc != 1:
+                    bad = ("read-unset-small:exit-%s" % rc, {"artifact": art, "stderr": err[-300:]})
+                elif name not in err:
+                    bad = ("read-unset-small:diagnostic-does-not-name-variable", {"stderr": err[-400:]})
+                else:
+                    leaked = [k for k, v in envv.items() if k != "HOME" and len(v) >= 3 and v in err]
+                    if leaked:
+                        bad = ("read-unset-small:diagnostic-discloses-other-variables", {"leaked": leaked, "stderr": err[-400:]})
             elif kind == "read-undecodable":
                 # the variable itself has no string value, so what reading it gives is not laid down; it must not bring the compiler down
                 (strict,) = prm
@@ -299,6 +313,12 @@ def cases(thorough):
             for quoted in (False, True):
                 for strict in (True, False):
                     yield ("read-from", {"A": "setA", "X1": "other"}, (place, name, quoted, strict))
+    # (3a') the smallest environments: nothing but HOME and one short secret, the secret as the only variable with a long name, ...
+    for extra in ({}, {"K": "v"}, {"TOKEN": "s3cr3t-two"}):
+        envv = dict({"HOME": "h"}, **extra)
+        for quoted in (False, True):
+            yield ("read-unset-small", envv, ("ZZ", quoted, True))
+            yield ("read-unset-small", envv, ("Z", quoted, True))
     # (3b') the recursive directory walk: the same reads from files at depth 0, 1 and 2 of `ucg build -r .`
     for name in ("A", "ZZ_UNSET"):
         for quoted in (False, True):
